@@ -182,6 +182,24 @@ ResumeOK(e) ==
     /\ e.again_open = "ok" /\ e.again = e.live
 Resume(e) == ResumeOK(e) /\ UNCHANGED <<sp, img>>
 
+(* regen{api, cap, truncated, pos, writes:[{off, data}], open, got}: A FILE CREATED OVER AN  *)
+(* EXISTING ONE.  Generation 1 left a longer file full of 0xAA at the path; generation 2   *)
+(* was created there (initial size cap), wrote `writes` in this order (seeks may leave     *)
+(* gaps, all inside cap) and optionally truncated at its final position pos.  Reopened, the *)
+(* file must hold exactly what generation 2 wrote: its length is pos when truncated, else   *)
+(* cap; a byte is the last write that covers it, and a byte never written is what a fresh   *)
+(* file holds: zero.  Nothing of generation 1 may show.                                     *)
+RegenLen(e) == IF e.truncated THEN e.pos ELSE e.cap
+RegenByte(e, i) ==
+    LET W == { w \in 1..Len(e.writes) :
+                 e.writes[w].off < i /\ i <= e.writes[w].off + Len(e.writes[w].data) }
+    IN IF W = {} THEN 0
+       ELSE LET w == CHOOSE x \in W : \A y \in W : y <= x
+            IN e.writes[w].data[i - e.writes[w].off]
+RegenExpected(e) == [i \in 1..RegenLen(e) |-> RegenByte(e, i)]
+RegenOK(e) == e.open = "ok" /\ e.got = RegenExpected(e)
+Regen(e) == RegenOK(e) /\ UNCHANGED <<sp, img>>
+
 (* raw transports (io::mmap readers: a byte stream without header): the reader    *)
 (* must present exactly the bytes of the image - nothing beyond the end of the    *)
 (* file, nothing missing - and an undamaged sync image is the synced content      *)
